@@ -177,6 +177,14 @@ def check_inner_mutability(R, repo):
   mod = repo.mod(LI)
   sf = mod.func('_partial_pack.scope_fn')
   d = types.single_def(sf.node, 'scope_mutable')
+  inline = None
+  if d is None and not flow.defs(sf, 'scope_mutable'):
+    # the intersection may be written directly in the Scope(...) call
+    for x in astu.func_calls(sf):
+      if astu.call_name(x) == 'Scope':
+        st_, v_ = evid.passed_value(repo, sf.mod, sf, x, 'mutable')
+        if st_ == evid.YES and isinstance(v_, ast.Call) and astu.call_name(v_) == 'intersect_filters':
+          d = inline = v_
   if d is None:
     # built in steps: a step that applies one of the three filters only `if <that filter>:` treats False ("nothing") as "no restriction"
     c = cfg_of(sf)
@@ -192,7 +200,9 @@ def check_inner_mutability(R, repo):
   R.judge(leaves is not None or widened, leaves is not None and sorted(leaves) == ['mutable', 'mutable_filter', 'scope.mutable'], key_of(sf, 'scope_mutable = intersect(scope.mutable, out filters, mutable_filter)'), sf,
           'the inner scope\'s mutability must be the intersection of the outer scope\'s mutability, the union of the out filters and mutable_filter (got `%s`): anything wider makes non-lifted collections writable' % astu.short(d))
   ctor = [x for x in astu.func_calls(sf) if astu.call_name(x) == 'Scope']
-  if len(ctor) == 1:
+  if len(ctor) == 1 and inline is not None:
+    R.ok(key_of(sf, 'Scope(mutable=scope_mutable)') + ' :: mutable', (sf, ctor[0]))
+  elif len(ctor) == 1:
     evid.judge_args(R, repo, sf, ctor[0], {'mutable': (None, {'scope_mutable'} | ({astu.src(d)} if d is not None else set()))}, key_of(sf, 'Scope(mutable=scope_mutable)'), 'the inner Scope must be created with mutable=scope_mutable')
   else:
     R.unsure(key_of(sf, 'Scope(mutable=scope_mutable)'), sf, 'Scope(...) not found in scope_fn')
